@@ -209,11 +209,12 @@ class _CommonFile:
             # NOTE: if multiple entries for a key, we use the first one,
             #       which seems to match htpasswd source
             if key in records:
+                # NOTE: the duplicate line is dropped, not preserved: writing it back
+                #       would bring a stale entry (or a deleted user) back to life.
                 logging.warning(
                     "username occurs multiple times in source file: %r",
                     key,
                 )
-                skipped += line
                 continue
 
             # flush buffer of skipped whitespace lines
